@@ -16,6 +16,7 @@ mod c10;
 mod c18;
 mod c17;
 mod c02;
+mod c14;
 
 pub struct Out {
     pub cases: BufWriter<File>,
@@ -86,6 +87,7 @@ fn main() {
                 "C18dot" => c18::gen_dot(seed, n, &mut out),
                 "C01" => c01::gen(seed, n, &mut out),
                 "C02" => c02::gen(seed, n, &mut out),
+                "C14" => c14::gen(seed, n, &mut out),
                 "C03" => c03::gen(seed, n, &mut out),
                 "C04" => c04::gen(seed, n, &mut out),
                 "C05csr" => c05::gen_csr(seed, n, &mut out),
@@ -100,6 +102,7 @@ fn main() {
                 "C01" => for (id, h, ops) in parse_generic(&text) { c01::run_case(id, &h, &ops, &mut out) },
                 "C17g" | "C17s" => for (id, h, ops) in parse_generic(&text) { c17::run_case(prop, id, &h, &ops, &mut out) },
                 "C02" => for (id, h, ops) in parse_generic(&text) { c02::run_case(id, &h, &ops, &mut out) },
+                "C14" => for (id, h, ops) in parse_generic(&text) { c14::run_case(id, &h, &ops, &mut out) },
                 "C03" => for (id, h, ops) in parse_generic(&text) { c03::run_case(id, &h, &ops, &mut out) },
                 "C04" => for (id, h, ops) in parse_generic(&text) { c04::run_case(id, &h, &ops, &mut out) },
                 "C05csr" => for (id, h, ops) in parse_generic(&text) { c05::run_csr_case(id, &h, &ops, &mut out) },
